@@ -759,6 +759,17 @@ class Table(Vector):
 				dtype = self._dtype
 			)
 
+		# NOT RECOMMENDED
+		# (a list of row numbers selects from every column as it does from one vector; this and
+		# every key below fell off the end of the method and gave None)
+		if isinstance(key, list) and {type(e) for e in key} == {int}:
+			if len(self) > 1000:
+				warnings.warn('Subscript indexing is sub-optimal for large vectors')
+			return Vector(tuple(x[key] for x in self._underlying),
+				dtype = self._dtype
+			)
+		raise SerifTypeError(f'Table indices must be boolean vectors, integer vectors, slices, integers or column names, not {str(type(key))}')
+
 	def __setitem__(self, key, value):
 		"""
 		Support for 2D assignment:
